@@ -125,24 +125,78 @@ def rule_A(ck, name, f):
         allmods[b].sort(key=lambda t: (t[0], t[1]))
     findings = []
     facts_at = {}
+    # boolean flags: locals every definition of which is a literal true / false.  The analysis is path-sensitive in
+    # their values (a state is a set of (flag valuation, facts) pairs; facts are intersected per valuation), so
+    # `flag = true; break; ... if (flag) break;` does not leak the facts of the flagged path into the other one.
+    flags = {}
+    for b_, lst in allmods.items():
+        for pos, nid, d, n in lst:
+            val = None
+            if n['k'] == 'decl':
+                for v in n['v']:
+                    if v['d'] == d and v.get('init') is not None:
+                        val = unwrap(v['init'])
+            elif n['k'] == 'bin' and n['op'] == '=':
+                val = unwrap(n['y'])
+            isbool = val is not None and val['k'] == 'lit' and val.get('t') == 'bool'
+            if isbool and flags.get(d, True) is not False:
+                flags[d] = True
+            else:
+                flags[d] = False
+    flags = {d for d, okf in flags.items() if okf}
 
-    def transfer(b, st, record=False):
-        st = set(st)
-        for pos, nid, d, n in allmods.get(b, ()):
-            if record and d == k and n['k'] != 'decl':
-                facts_at[nid] = frozenset(st)
-            st = {(v, bd) for (v, bd) in st if v != d}
-        return frozenset(st)
+    def flag_value(n, d):
+        if n['k'] == 'decl':
+            for v in n['v']:
+                if v['d'] == d and v.get('init') is not None:
+                    return unwrap(v['init'])['v'] == 'true'
+        return unwrap(n['y'])['v'] == 'true'
 
-    def edge(b, kk, s, st):
+    def transfer(b, states, record=False):
+        out = {}
+        for val, st in states:
+            val = dict(val)
+            st = set(st)
+            for pos, nid, d, n in allmods.get(b, ()):
+                if record and d == k and n['k'] != 'decl':
+                    facts_at[nid] = (facts_at[nid] & frozenset(st)) if nid in facts_at else frozenset(st)
+                st = {(v, bd) for (v, bd) in st if v != d}
+                if d in flags:
+                    val[d] = flag_value(n, d)
+            kv = tuple(sorted(val.items()))
+            out[kv] = (out[kv] & frozenset(st)) if kv in out else frozenset(st)
+        return frozenset(out.items())
+
+    def edge(b, kk, s, states):
         c = cfg.cond(b)
-        if c is not None:
+        if c is None:
+            return states
+        cu = unwrap(c)
+        neg = False
+        while cu is not None and cu['k'] == 'un' and cu['op'] == '!':
+            neg = not neg
+            cu = unwrap(cu['e'])
+        out = []
+        for val, st in states:
+            if cu is not None and cu['k'] == 'ref' and cu['d'] in flags:
+                known = dict(val).get(cu['d'])
+                if known is not None:
+                    taken_true = (known != neg)
+                    if (kk == 0) != taken_true:
+                        continue      # infeasible for this valuation
             add = [(v, bd) for (si, v, bd) in less_than_edge(c) if si == kk]
-            if add:
-                return frozenset(set(st) | set(add))
-        return st
+            out.append((val, frozenset(set(st) | set(add))) if add else (val, st))
+        if not out:
+            return None
+        return frozenset(out)
 
-    IN, OUT = cfg.forward(frozenset(), transfer, edge=edge, join=lambda a, b_: a & b_)
+    def join(a, b_):
+        m = dict(a)
+        for val, st in b_:
+            m[val] = (m[val] & st) if val in m else st
+        return frozenset(m.items())
+
+    IN, OUT = cfg.forward(frozenset([((), frozenset())]), transfer, edge=edge, join=join)
     for b, st in IN.items():
         transfer(b, st, record=True)
     ok_all = True
@@ -212,6 +266,78 @@ def root_key(f, e, al):
             return ('param', pi)
         return ('var', d)
     return ('this', path[:1])
+
+
+def helper_of(f, call):
+    """the same-class member function with a body that `call` invokes on *this (not norm / inner products), else None"""
+    if call.get('k') != 'call' or 'fd' not in call:
+        return None
+    g = f.unit.by_id.get(call['fd'])
+    if g is None or g is f or g.body is None or g.cls != f.cls or not f.cls:
+        return None
+    obj = call.get('obj')
+    if obj is not None and unwrap(obj)['k'] != 'this':
+        return None
+    if g.q.split('::')[-1] in ('norm', 'operator()'):
+        return None
+    return g
+
+
+def map_root(r, argroots, g):
+    if r is None:
+        return None
+    if r[0] == 'param':
+        return argroots[r[1]] if r[1] < len(argroots) else None
+    if r[0] == 'var':
+        return ('var', (g.id, r[1]))
+    return r
+
+
+def helper_events(f, g, argroots, rhs_d, A_d, depth=0):
+    """vector effects of helper g in source order, with its parameters replaced by the caller's argument roots"""
+    out = []
+    if depth > 3:
+        return out
+    alg = alias_roots(g)
+    for n in sorted(g.nodes.values(), key=lambda t: t['i']):
+        if n['k'] != 'call':
+            continue
+        pr = prim_name(n)
+        if pr is not None:
+            ci, oi = PRIMS[pr]
+            outr = map_root(root_key(g, n['a'][oi], alg), argroots, g)
+            coef = classify_coef(g, n['a'][ci]) if ci is not None else 'zero'
+            if pr == 'residual':
+                out.append(('write', (outr, 'other', None)))
+            else:
+                out.append(('write', (outr, 'update' if coef != 'zero' else 'overwrite', None)))
+        elif n.get('m') == 'apply' and len(n.get('a', [])) == 2 and 'obj' in n:
+            out.append(('write', (map_root(root_key(g, n['a'][1], alg), argroots, g), 'apply', map_root(root_key(g, n['a'][0], alg), argroots, g))))
+        elif n.get('f') == 'amgcl::preconditioner::spmv' and len(n.get('a', [])) == 6:
+            out.append(('write', (map_root(root_key(g, n['a'][4], alg), argroots, g), 'overwrite', None)))
+            out.append(('write', (map_root(root_key(g, n['a'][5], alg), argroots, g), 'overwrite', None)))
+        else:
+            h = helper_of(g, n)
+            if h is not None:
+                sub = [map_root(root_key(g, a, alg), argroots, g) for a in n.get('a', [])]
+                out.extend(helper_events(f, h, sub, rhs_d, A_d, depth + 1))
+    return out
+
+
+def helper_norm_root(f, init, al):
+    """`R = helper(args)` where every return of the helper is norm(v): the root of v in the caller, else None"""
+    e = unwrap(init)
+    g = helper_of(f, e) if e is not None else None
+    if g is None:
+        return None
+    alg = alias_roots(g)
+    roots = set()
+    for r in g.returns():
+        x = unwrap(r['e'])
+        if not (x['k'] == 'call' and x.get('m') == 'norm' and len(x.get('a', [])) == 1):
+            return None
+        roots.add(map_root(root_key(g, x['a'][0], alg), [root_key(f, a, al) for a in e.get('a', [])], g))
+    return next(iter(roots)) if len(roots) == 1 else None
 
 
 def rule_B(ck, name, f, kdecl):
@@ -319,9 +445,19 @@ def rule_B(ck, name, f, kdecl):
             elif n.get('f') == 'amgcl::preconditioner::spmv' and len(n.get('a', [])) == 6:
                 add(n, 'write', (root_key(f, n['a'][4], al), 'overwrite', None))
                 add(n, 'write', (root_key(f, n['a'][5], al), 'overwrite', None))
+            else:
+                # a private helper of the solver class (extracted method): its vector effects happen at the call
+                g = helper_of(f, n)
+                if g is not None:
+                    argroots = [root_key(f, a, al) for a in n.get('a', [])]
+                    for kind, payload in helper_events(f, g, argroots, rhs_d, A_d):
+                        add(n, kind, payload)
     for n, init in defs(R):
         w = is_norm_of(init)
-        add(n, 'defR', root_key(f, w, al) if w is not None else None)
+        if w is not None:
+            add(n, 'defR', root_key(f, w, al))
+        else:
+            add(n, 'defR', helper_norm_root(f, init, al))
     for b in events:
         events[b].sort(key=lambda t: (t[0], t[1]))
 
@@ -470,7 +606,9 @@ def rule_lockstep(ck, name, f):
         # B6: the two residual-smoothing blocks are the same code
         import json
         import c02
-        blocks = [n for n in f.nodes.values() if n['k'] == 'if' and show(n['c']) == 'prm.smoothing' and any(prim_name(c_) == 'axpbypcz' for c_ in walk(n['t']) if c_['k'] == 'call')]
+        # the smoothing blocks: `if (prm.smoothing) ...` inside the iteration loops (the code itself or a call of a helper that holds it)
+        blocks = [n for n in f.nodes.values() if n['k'] == 'if' and show(n['c']) == 'prm.smoothing' and any(a['k'] in ('for', 'while', 'do') for a in f.ancestors(n))
+                  and any(c_['k'] == 'call' and (prim_name(c_) or helper_of(f, c_) is not None) for c_ in walk(n['t']))]
         forms = [json.dumps(c02.norm_tree(f, b['t'], {}), sort_keys=True) for b in blocks]
         ok = len(forms) == 2 and forms[0] == forms[1]
         ck.ob('B6.smoothing-siblings', key, f.where(blocks[-1]) if blocks else f.where(), ok,
